@@ -10,7 +10,7 @@
    well formed and kept as they are by storage). *)
 From Coq Require Import List ZArith NArith Bool.
 From TF Require Import Base Query Index DB Spec proofs.IndexDefs proofs.IndexP proofs.RepP proofs.DBReadP proofs.DBRemoveP
-     proofs.DBStepP proofs.DBRunP proofs.DBSpecP.
+     proofs.DBStepP proofs.DBRunP proofs.DBSpecP proofs.GetterP.
 Import ListNotations.
 
 Theorem C06_reachable : forall E C norm, (forall p, wf_point p -> wf_point (norm p)) ->
@@ -23,6 +23,16 @@ Proof. exact step_Inv. Qed.
 Theorem C06_valid_is_rebuilt_search : forall E i pts q, Rep i pts -> wf_points pts -> wf_query E q -> exact_for_index q = true ->
   exists a b, isearch E i q = Some a /\ isearch E (ix_build pts) q = Some b /\ NoDup a /\ NoDup b /\ forall k, In k a <-> In k b.
 Proof. exact valid_is_rebuilt_search. Qed.
+(* ... and the same keys, values, timestamps and length *)
+Theorem C06_valid_is_rebuilt_getters : forall i pts, Rep i pts -> wf_points pts ->
+  ix_get_measurements i = ix_get_measurements (ix_build pts) /\
+  (forall m, ix_get_tag_keys i m = ix_get_tag_keys (ix_build pts) m) /\
+  (forall m, ix_get_field_keys i m = ix_get_field_keys (ix_build pts) m) /\
+  (forall k m, ix_get_field_values i k m = ix_get_field_values (ix_build pts) k m) /\
+  (forall ks m, ix_get_tag_values i ks m = ix_get_tag_values (ix_build pts) ks m) /\
+  (forall m, ix_get_timestamps i m = ix_get_timestamps (ix_build pts) m) /\
+  ix_n i = ix_n (ix_build pts).
+Proof. exact getters_as_rebuilt. Qed.
 (* incremental maintenance: each step keeps the description *)
 Theorem C06_build : forall pts, wf_points pts -> Rep (ix_build pts) pts.
 Proof. exact Rep_build. Qed.
@@ -40,6 +50,7 @@ Proof. exact read_prelude_valid. Qed.
 Print Assumptions C06_reachable.
 Print Assumptions C06_step.
 Print Assumptions C06_valid_is_rebuilt_search.
+Print Assumptions C06_valid_is_rebuilt_getters.
 Print Assumptions C06_build.
 Print Assumptions C06_insert.
 Print Assumptions C06_remove.
